@@ -92,30 +92,42 @@ Section PrintRun.
       rewrite H1. cbn. eexists. exists L2. split; [reflexivity|]. split; [exact H2|]. rewrite H3. reflexivity.
   Qed.
 
+  Lemma print_output_app c (L1 L2 : list lognode) :
+    print_output NM c (L1 ++ L2) = print_output NM c L1 ++ print_output NM c L2.
+  Proof. unfold print_output. rewrite map_app, concat_app. reflexivity. Qed.
+
   Section Walk.
     Context (c : rconfig) (pd : nat -> list bytes -> list bytes) (pf : list bytes -> list bytes)
-            (toks : list ltoken).
+            (toks : list ltoken) (bt et : option time).
     Notation R := (rep_print NM c).
-    Notation cb := (walk_cb NM R pd toks None None).
+    Notation cb := (walk_cb NM R pd toks bt et).
+    Notation sel := (fun d : lognode => in_interval bt et (ln_time NM d)).
 
-    (** one record whose heading is a date: the day is printed, the walk goes on *)
+    (** one record whose heading is a date: the day is printed if it lies in the period, the walk goes on *)
     Lemma walk_cb_day rs i wr n cv :
       good wr -> parse_date toks (header n) = Some cv ->
       let d := {| ln_time := time_of_civil cv; ln_elems := merge_elements NM (elems n); ln_meta := meta n |} in
-      exists rs' wr', cb (rs, i, wr) (ENode n) = ((rs', S i, wr'), false, None)
-                      /\ good wr' /\ out wr' = out wr ++ print_day NM c d.
+      exists rs' i' wr', cb (rs, i, wr) (ENode n) = ((rs', i', wr'), false, None)
+                         /\ good wr' /\ out wr' = out wr ++ print_output NM c (filter sel [d]).
     Proof.
-      intros Hg Hd d. unfold walk_cb. rewrite Hd. cbn [in_interval andb]. fold d.
-      cbn [r_process rep_print].
-      destruct (bw_chunks_good (print_chunks NM c d) wr Hg) as (Hg1 & He1 & Ho1).
-      destruct (bw_chunks wr (print_chunks NM c d)) as [wr' werr]. cbn [fst snd] in *. subst werr.
-      exists tt, wr'. split; [reflexivity|]. split; [exact Hg1|exact Ho1].
+      intros Hg Hd d. assert (Et : ln_time NM d = time_of_civil cv) by reflexivity.
+      unfold walk_cb. rewrite Hd.
+      destruct (in_interval bt et (time_of_civil cv)) eqn:Ei.
+      - assert (Esel : filter sel [d] = [d]) by (cbn [filter]; rewrite Et, Ei; reflexivity).
+        rewrite Esel. fold d. cbn [r_process rep_print].
+        destruct (bw_chunks_good (print_chunks NM c d) wr Hg) as (Hg1 & He1 & Ho1).
+        destruct (bw_chunks wr (print_chunks NM c d)) as [wr' werr]. cbn [fst snd] in *. subst werr.
+        exists tt, (S i), wr'. split; [reflexivity|]. split; [exact Hg1|].
+        rewrite Ho1. unfold print_output, print_day. cbn [map concat]. rewrite app_nil_r. reflexivity.
+      - assert (Esel : filter sel [d] = []) by (cbn [filter]; rewrite Et, Ei; reflexivity).
+        rewrite Esel. exists rs, i, wr. split; [reflexivity|]. split; [exact Hg|]. unfold print_output. cbn.
+        rewrite app_nil_r. reflexivity.
     Qed.
 
     Lemma drive_loop_print evs : forall L rs i wr,
       good wr -> lognodes_of NM toks evs = Some L ->
       exists rs' i' wr', drive_loop NM cb evs (rs, i, wr) = ((rs', i', wr'), None)
-                         /\ good wr' /\ out wr' = out wr ++ print_output NM c L.
+                         /\ good wr' /\ out wr' = out wr ++ print_output NM c (filter sel L).
     Proof.
       induction evs as [|ev evs IH]; intros L rs i wr Hg H.
       - cbn in H. injection H as <-. exists rs, i, wr. split; [reflexivity|]. split; [exact Hg|].
@@ -123,18 +135,18 @@ Section PrintRun.
       - destruct ev as [n|e]; [|discriminate]. cbn [lognodes_of] in H.
         destruct (parse_date toks (header n)) as [cv|] eqn:Ed; [|discriminate].
         destruct (lognodes_of NM toks evs) as [L0|] eqn:E0; [|discriminate]. cbn in H. injection H as <-.
-        destruct (walk_cb_day rs i wr n cv Hg Ed) as [rs1 [wr1 [E1 [Hg1 Ho1]]]].
+        destruct (walk_cb_day rs i wr n cv Hg Ed) as [rs1 [i1 [wr1 [E1 [Hg1 Ho1]]]]].
         cbn [drive_loop]. rewrite E1.
-        destruct (IH L0 rs1 (S i) wr1 Hg1 eq_refl) as [rs2 [i2 [wr2 [E2 [Hg2 Ho2]]]]].
+        destruct (IH L0 rs1 i1 wr1 Hg1 eq_refl) as [rs2 [i2 [wr2 [E2 [Hg2 Ho2]]]]].
         exists rs2, i2, wr2. split; [exact E2|]. split; [exact Hg2|].
-        rewrite Ho2, Ho1. unfold print_output. cbn [map concat]. rewrite app_assoc. reflexivity.
+        rewrite Ho2, Ho1. rewrite <- app_assoc. rewrite <- print_output_app. rewrite <- filter_app. reflexivity.
     Qed.
 
     (** the walk over a readable file *)
     Lemma parse_opened_print data L rs i wr :
       good wr -> read_log NM toks data = Some L ->
       exists rs' i' wr', parse_opened NM cb (OData data NoFault) (rs, i, wr) = ((rs', i', wr'), None)
-                         /\ good wr' /\ out wr' = out wr ++ print_output NM c L.
+                         /\ good wr' /\ out wr' = out wr ++ print_output NM c (filter sel L).
     Proof.
       intros Hg H. unfold read_log in H. unfold parse_opened, parse_stream. unfold events in H.
       destruct (scan data NoFault) as [lines fin]. cbn [fst snd] in H.
@@ -145,19 +157,69 @@ Section PrintRun.
       unfold drive. rewrite E1. destruct last as [n|].
       - cbn [lognodes_of] in H2. destruct (parse_date toks (header n)) as [cv|] eqn:Ed; [|discriminate].
         cbn in H2. injection H2 as <-.
-        destruct (walk_cb_day rs1 i1 wr1 n cv Hg1 Ed) as [rs2 [wr2 [E2 [Hg2 Ho2]]]].
-        rewrite E2. cbn [option_map]. exists rs2, (S i1), wr2. split; [reflexivity|]. split; [exact Hg2|].
-        rewrite Ho2, Ho1, HL. unfold print_output. rewrite map_app, concat_app. cbn [map concat].
-        rewrite app_nil_r. rewrite app_assoc. reflexivity.
+        destruct (walk_cb_day rs1 i1 wr1 n cv Hg1 Ed) as [rs2 [i2 [wr2 [E2 [Hg2 Ho2]]]]].
+        rewrite E2. cbn [option_map]. exists rs2, i2, wr2. split; [reflexivity|]. split; [exact Hg2|].
+        rewrite Ho2, Ho1, HL. rewrite <- app_assoc. rewrite <- print_output_app. rewrite <- filter_app. reflexivity.
       - cbn in H2. injection H2 as <-. exists rs1, i1, wr1. split; [reflexivity|]. split; [exact Hg1|].
         rewrite Ho1, HL, app_nil_r. reflexivity.
+    Qed.
+
+    (** the walk over events that [lognodes_of] rejects stops with an error *)
+    Lemma drive_loop_fails evs : forall rs i wr,
+      good wr -> lognodes_of NM toks evs = None ->
+      exists st' e, drive_loop NM cb evs (rs, i, wr) = (st', Some (Some e)).
+    Proof.
+      induction evs as [|ev evs IH]; intros rs i wr Hg H; [discriminate|].
+      destruct ev as [n|e].
+      - cbn [lognodes_of] in H. destruct (parse_date toks (header n)) as [cv|] eqn:Ed.
+        + destruct (walk_cb_day rs i wr n cv Hg Ed) as [rs1 [i1 [wr1 [E1 [Hg1 _]]]]].
+          cbn [drive_loop]. rewrite E1. apply IH; [exact Hg1|].
+          destruct (lognodes_of NM toks evs); [discriminate|reflexivity].
+        + cbn [drive_loop]. unfold walk_cb. rewrite Ed. eexists. eexists. reflexivity.
+      - cbn [drive_loop]. unfold walk_cb. eexists. eexists. reflexivity.
+    Qed.
+
+    Lemma lognodes_of_app_none evs1 evs2 :
+      lognodes_of NM toks (evs1 ++ evs2) = None ->
+      lognodes_of NM toks evs1 = None
+      \/ exists L1, lognodes_of NM toks evs1 = Some L1 /\ lognodes_of NM toks evs2 = None.
+    Proof.
+      induction evs1 as [|ev evs1 IH]; intros H.
+      - right. exists []. split; [reflexivity|exact H].
+      - cbn [app lognodes_of] in *. destruct ev as [n|e]; [|left; reflexivity].
+        destruct (parse_date toks (header n)) as [cv|]; [|left; reflexivity].
+        destruct (lognodes_of NM toks (evs1 ++ evs2)) as [L0|] eqn:E0; [discriminate|].
+        destruct (IH eq_refl) as [H1|[L1 [H1 H2]]].
+        + left. rewrite H1. reflexivity.
+        + right. rewrite H1. cbn. eexists. split; [reflexivity|exact H2].
+    Qed.
+
+    (** the walk over a file that [read_log] rejects ends with an error *)
+    Lemma parse_opened_fails data rs i wr :
+      good wr -> read_log NM toks data = None ->
+      exists st' e, parse_opened NM cb (OData data NoFault) (rs, i, wr) = (st', Some e).
+    Proof.
+      intros Hg H. unfold read_log in H. unfold parse_opened, parse_stream. unfold events in H.
+      destruct (scan data NoFault) as [lines fin]. cbn [fst snd] in H.
+      destruct (parse_lines NM lines) as [evs last]. unfold drive.
+      destruct (lognodes_of NM toks evs) as [L1|] eqn:E1.
+      - destruct (drive_loop_print evs L1 rs i wr Hg E1) as [rs1 [i1 [wr1 [D1 [Hg1 _]]]]]. rewrite D1.
+        destruct fin.
+        + destruct (lognodes_of_app_none _ _ H) as [H1|[L1' [_ H2]]]; [congruence|].
+          destruct last as [n|]; [|discriminate]. cbn [lognodes_of] in H2.
+          destruct (parse_date toks (header n)) as [cv|] eqn:Ed; [discriminate|].
+          unfold walk_cb. rewrite Ed. eexists. eexists. reflexivity.
+        + eexists. eexists. reflexivity.
+        + eexists. eexists. reflexivity.
+      - destruct (drive_loop_fails evs rs i wr Hg E1) as [st' [e D1]]. rewrite D1.
+        cbn [option_map]. eexists. eexists. reflexivity.
     Qed.
 
     (** the walk and the final flush *)
     Lemma walk_and_finish_print data L wr :
       good wr -> read_log NM toks data = Some L ->
-      exists wr' rs', walk_and_finish NM R pd pf toks None None (OData data NoFault) wr = (wr', None, rs')
-                      /\ s_got (bw_sink wr') = out wr ++ print_output NM c L.
+      exists wr' rs', walk_and_finish NM R pd pf toks bt et (OData data NoFault) wr = (wr', None, rs')
+                      /\ s_got (bw_sink wr') = out wr ++ print_output NM c (filter sel L).
     Proof.
       intros Hg H. unfold walk_and_finish.
       destruct (parse_opened_print data L (r_init NM R) O wr Hg H) as [rs1 [i1 [wr1 [E1 [Hg1 Ho1]]]]].
@@ -170,50 +232,78 @@ Section PrintRun.
 
   (** *** the command *)
 
+  (** print on a log file read as the days [L] writes the days of the period and exits with status Ok *)
   Theorem run_print_output w op c data toks L :
     print_setting w op data toks -> read_log NM toks data = Some L ->
-    run_log NM w op (rep_print NM c) = {| out_stdout := print_output NM c L; out_status := Ok |}.
+    run_log NM w op (rep_print NM c)
+    = {| out_stdout := print_output NM c (filter (in_period NM op) L); out_status := Ok |}.
   Proof.
-    intros (Hs & Hne & Hfs & Hrf & Htok & Hb & He) H. unfold run_log, open_all, open_file.
+    intros (Hs & Hne & Hfs & Hrf & Htok) H. unfold run_log, open_all, open_file.
     destruct (op_log op) as [|p0 p'] eqn:Ep; [congruence|]. rewrite Hfs, Hrf. cbn [option_map].
-    rewrite Htok, Hb, He.
+    rewrite Htok.
     assert (Hg : good (new_writer w)) by (unfold new_writer, bw_new, good; cbn; rewrite Hs; split; reflexivity).
-    destruct (walk_and_finish_print c (o_day (w_or w)) (o_flush (w_or w)) toks data L _ Hg H)
+    destruct (walk_and_finish_print c (o_day (w_or w)) (o_flush (w_or w)) toks (op_begin op) (op_end op) data L _ Hg H)
       as [wr' [rs' [E Hgot]]].
     rewrite E. unfold finish, status_of. rewrite Hgot. unfold out, new_writer, bw_new. cbn. reflexivity.
   Qed.
 
-  (** C14 at the level of the command: take any run of print whose input is
-      read as days in the normal form; feed its standard output back as the
-      log file (same options); the second run succeeds and writes the same bytes *)
-  Theorem run_print_twice (FS : FmtStable NM) w1 w2 op c data toks L :
-    rc_date c = toks -> heading_layout toks = true ->
-    print_setting w1 op data toks -> read_log NM toks data = Some L -> Forall (day_ok NM c) L ->
-    print_setting w2 op (out_stdout (run_log NM w1 op (rep_print NM c))) toks ->
-    run_log NM w2 op (rep_print NM c) = run_log NM w1 op (rep_print NM c)
-    /\ out_status (run_log NM w1 op (rep_print NM c)) = Ok.
+  (** and conversely: a file [read_log] rejects makes the command fail; so in this
+      setting [read_log toks data <> None] says exactly that print succeeds *)
+  Theorem run_print_fails w op c data toks :
+    print_setting w op data toks -> read_log NM toks data = None ->
+    exists e, out_status (run_log NM w op (rep_print NM c)) = Failed e.
   Proof.
-    intros Hc HL S1 H1 Hok S2. rewrite (run_print_output w1 op c data toks L S1 H1) in *. cbn [out_stdout] in S2.
-    subst toks. destruct (print_reads_back NM FS c L HL Hok) as [_ [Hr _]].
-    rewrite (run_print_output w2 op c _ _ _ S2 Hr). rewrite (print_output_reread NM FS). split; reflexivity.
+    intros (Hs & Hne & Hfs & Hrf & Htok) H. unfold run_log, open_all, open_file.
+    destruct (op_log op) as [|p0 p'] eqn:Ep; [congruence|]. rewrite Hfs, Hrf. cbn [option_map].
+    rewrite Htok.
+    assert (Hg : good (new_writer w)) by (unfold new_writer, bw_new, good; cbn; rewrite Hs; split; reflexivity).
+    unfold walk_and_finish.
+    destruct (parse_opened_fails c (o_day (w_or w)) toks (op_begin op) (op_end op) data
+                (r_init NM (rep_print NM c)) O _ Hg H) as [[[rs1 i1] wr1] [e E]].
+    rewrite E. cbn [r_flush rep_print bw_chunks].
+    destruct (bw_flush wr1) as [wr3 ferr]. exists e. reflexivity.
   Qed.
 
-  (** the same for every readable log: the only hypotheses are the documented
-      note forms and the line-length limit *)
+  Lemma read_log_nil toks : read_log NM toks [] = Some [].
+  Proof. reflexivity. Qed.
+
+  Lemma filter_all {A} (f : A -> bool) l : Forall (fun x => f x = true) l -> filter f l = l.
+  Proof. induction 1 as [|x l Hx Hl IH]; [reflexivity|]. cbn. rewrite Hx, IH. reflexivity. Qed.
+
+  (** C14 at the level of the command, for every readable log and any period:
+      feed the standard output of a run of print back as the log file, under
+      the same options; the second run succeeds and writes the same bytes.
+      Hypotheses: the number law, and for the days of the period the
+      documented note forms and the line-length limit. *)
   Theorem run_print_twice_log (FS : FmtStable NM) w1 w2 op c data toks L :
     rc_date c = toks ->
     print_setting w1 op data toks -> read_log NM toks data = Some L ->
-    Forall (fun d => Forall (fun mp => documented_note mp = true) (notes_of NM d)) L ->
-    Forall (fun d => Forall (fun l => lengthN l < max_token) (day_lines NM c d)) L ->
+    Forall (fun d => Forall (fun mp => documented_note mp = true) (notes_of NM d)) (filter (in_period NM op) L) ->
+    Forall (fun d => Forall (fun l => lengthN l < max_token) (day_lines NM c d)) (filter (in_period NM op) L) ->
     print_setting w2 op (out_stdout (run_log NM w1 op (rep_print NM c))) toks ->
     run_log NM w2 op (rep_print NM c) = run_log NM w1 op (rep_print NM c)
     /\ out_status (run_log NM w1 op (rep_print NM c)) = Ok.
   Proof.
     intros Hc S1 H1 Hn Hl S2. rewrite (run_print_output w1 op c data toks L S1 H1) in *. cbn [out_stdout] in S2.
+    split; [|reflexivity].
+    set (Ls := filter (in_period NM op) L) in *.
     assert (Hsafe : forallb safe_tok toks = true).
-    { destruct S1 as (_ & _ & _ & _ & Htok & _). apply (PrintDates.tokenize_safe _ _ Htok). }
-    subst toks. destruct (print_reads_back_log NM FS c data L Hsafe H1 Hn Hl) as [Hr Hp].
-    rewrite (run_print_output w2 op c _ _ _ S2 Hr). rewrite Hp. split; reflexivity.
+    { destruct S1 as (_ & _ & _ & _ & Htok). apply (PrintDates.tokenize_safe _ _ Htok). }
+    destruct (read_log_shape NM toks data L H1) as [Hshape Hlay].
+    assert (Hr : read_log NM toks (print_output NM c Ls) = Some (map (reread_day NM) Ls)).
+    { destruct Ls as [|d0 Ls0] eqn:ELs; [apply read_log_nil|].
+      assert (HLne : L <> []) by (intros ->; discriminate).
+      assert (HL : heading_layout (rc_date c) = true) by (rewrite Hc; apply Hlay; assumption).
+      subst toks. apply (print_reads_back NM FS c (d0 :: Ls0) HL).
+      rewrite <- ELs in *. rewrite Forall_forall in *. intros d Hd.
+      assert (HdL : In d L) by (unfold Ls in Hd; apply filter_In in Hd; tauto).
+      destruct (Hshape d HdL) as [S1' [S2' [S3' S4']]].
+      unfold day_ok. auto 10 using (Hn d Hd), (Hl d Hd). }
+    rewrite (run_print_output w2 op c _ toks _ S2 Hr). f_equal.
+    rewrite filter_all.
+    - apply (print_output_reread NM FS).
+    - apply Forall_map. unfold Ls. apply Forall_forall. intros d Hd. apply filter_In in Hd.
+      unfold in_period, reread_day. cbn [ln_time]. apply Hd.
   Qed.
 End PrintRun.
 
@@ -241,6 +331,6 @@ Example run_twice_ex :
 Proof.
   cbv zeta.
   pose proof (run_print_output ZNum _ op_ex (cfg toks0) _ toks0 _ (setting_ex _) log12_reads_back) as E1.
-  rewrite E1. cbn [out_status out_stdout]. split; [reflexivity|]. split; [reflexivity|].
-  rewrite (run_print_output ZNum _ op_ex (cfg toks0) _ toks0 _ (setting_ex _) log12_reads_back). reflexivity.
+  assert (Ef : filter (in_period ZNum op_ex) log12 = log12) by reflexivity. rewrite Ef in E1.
+  rewrite E1. cbn [out_status out_stdout]. split; [reflexivity|]. split; [reflexivity|]. exact E1.
 Qed.
